@@ -4,6 +4,8 @@
 --   optsb q b g ext ff fr                        ProofOptions::read_from of six bytes   -> ok | err
 --   ctx field log2len b                          Context::new / Context::read_from size limits -> ok | refused
 --   plevel CFG modhex cr                         both security levels of the honest proof of CFG
+--   tag LABEL                                    label of a history (a ;; b ;; c)        -> t
+--   lvl P|C q b g ext log2len modhex hname cr    ONE security_level call (proven / conjectured)
 --   bits modhex                                  Context::num_modulus_bits     -> n | panic
 --   conj b g ext log2len modhex hname cr         security_level(true), q = 1..255 -> run-length coded levels (p = panic)
 --   prov b g ext log2len modhex hname cr q1 q2   security_level(false), q = q1..q2
@@ -124,6 +126,19 @@ def handle : List String → String
         s!"{resShort (securityLevel o bytes (2 ^ l2) cr true)} {resShort (securityLevel o bytes (2 ^ l2) cr false)}"
       | none => "bad-op"
     | _, _, _ => "bad-op"
+  | ["tag", _] => "t"
+  | ["lvl", kind, q, b, g, e, l2, modhex, _hname, cr] =>
+    match natList [q, b, g, e, l2, cr], unhex modhex with
+    | some [q, b, g, e, l2, cr], some bytes =>
+      match Ext.ofNat? e with
+      | some e =>
+        if bytes.isEmpty ∨ l2 > 63 ∨ (kind ≠ "C" ∧ kind ≠ "P") then "bad-op" else
+        if q > 255 ∨ b > 255 ∨ g > 255 then "noctx" else
+        if ¬ contextAccepted ⟨q, b, g, e, 8, 0⟩ (2 ^ l2) then "noctx" else
+        if (Options.new q b g e 8 0).isOk then resShort (securityLevel ⟨q, b, g, e, 8, 0⟩ bytes (2 ^ l2) cr (kind == "C"))
+        else "noctx"
+      | none => "bad-op"
+    | _, _ => "bad-op"
   | ["bits", modhex] =>
     match unhex modhex with
     | some bytes => if bytes.isEmpty ∨ bytes.length > 255 then "bad-op" else resStr (numModulusBits bytes)
